@@ -111,10 +111,12 @@ def _child(mod_name, pid, seeds, outpath, deadline, wall_cap):
     mod = load_check(pid)
     agg = new_agg()
     try:
-        for s in seeds:
+        for i, s in enumerate(seeds):
             if time.time() > deadline:
                 break
             r = run_one(mod, s)
+            if r["status"] == "violation":
+                r["prelude"] = list(seeds[:i])      # what this worker process ran before (see report())
             fold(agg, r)
     except BaseException as e:  # pragma: no cover
         agg["errors"].append({"seed": -1, "message": "child crashed: %r" % (e,),
@@ -153,9 +155,9 @@ def fold(agg, r):
         agg["info_counts"][k] = agg["info_counts"].get(k, 0) + 1
     agg["digests"] = hashlib.sha256((agg["digests"] + r["digest"]).encode()).hexdigest()
     if r["status"] == "violation":
-        agg["violations"].append({k: r[k] for k in
+        agg["violations"].append({k: r.get(k) for k in
                                   ("seed", "fingerprint", "message", "choices", "nchoices",
-                                   "digest", "details")})
+                                   "digest", "details", "prelude")})
     elif r["status"] in ("error", "diverged"):
         agg["errors"].append({"seed": r["seed"], "message": r.get("message"),
                               "traceback": r.get("traceback")})
@@ -334,7 +336,7 @@ def shrink_case(mod, seed, sparse, fp, case, budget_runs=120, budget_s=60.0):
 
 
 def write_replay(pid, seed, sparse, fp, message, digest, trace_tail, details=None,
-                 directory=None, name=None, case=None):
+                 directory=None, name=None, case=None, prelude=None):
     d = directory or os.path.join(OUT, "replays")
     os.makedirs(d, exist_ok=True)
     path = os.path.join(d, name or "%s-%d-%s.json" % (pid, seed, fp_str(fp)))
@@ -344,6 +346,8 @@ def write_replay(pid, seed, sparse, fp, message, digest, trace_tail, details=Non
              "trace_tail": trace_tail}
         if case is not None:
             d["case"] = case
+        if prelude:
+            d["prelude_seeds"] = list(prelude)
         json.dump(d, f, indent=1)
     return path
 
@@ -352,6 +356,10 @@ def replay_file(path, strict=True):
     with open(path) as f:
         rp = json.load(f)
     mod = load_check(rp["property"])
+    for ps in rp.get("prelude_seeds") or ():
+        # runs the same worker process executed before the failing one: the violation depends on
+        # process-wide state they left behind in the code under test
+        run_one(mod, ps)
     r = run_one(mod, rp["seed"], replay=replay_dict(rp["choices"]),
                 lenient=(not strict) or rp.get("case") is not None, keep_trace=True, case=rp.get("case"))
     ok = same_violation(r, rp["fingerprint"]) and (r["digest"] == rp["digest"])
@@ -393,13 +401,12 @@ def run_check(pid, tier, seed, jobs):
     agg = fan_out(pid, seeds, jobs, wall, chunk=budget.get("chunk"))
     known = known_for(pid)
     known_fps = {tuple(k["fingerprint"]): k for k in known}
-    # group violations by fingerprint, keep the shortest choice log
+    # group violations by fingerprint; candidates ordered by length of their choice log
     groups = {}
     for v in agg["violations"]:
-        fp = tuple(v["fingerprint"])
-        g = groups.get(fp)
-        if g is None or len(v["choices"]) < len(g["choices"]):
-            groups[fp] = v
+        groups.setdefault(tuple(v["fingerprint"]), []).append(v)
+    for g in groups.values():
+        g.sort(key=lambda v: (len(v["choices"]), v["seed"]))
     new_violations = []
     known_hit = {}
     harness_errors = list(agg["harness_errors"])
@@ -410,42 +417,40 @@ def run_check(pid, tier, seed, jobs):
     shrink_deadline = time.time() + float(os.environ.get("VERIF_SHRINK_S", "150"))
     minimize = bool(getattr(mod, "MINIMIZE_CASES", False))
     seen_final = set()
-    order = sorted(groups.items(), key=lambda kv: (len(json.dumps((kv[1].get("details") or {}).get("case"))), kv[0])
-                   if minimize else kv[0])
-    for fp, v in order:
-        if fp in known_fps:
-            known_hit[fp] = sum(1 for x in agg["violations"] if tuple(x["fingerprint"]) == fp)
-            continue
+
+    def case_len(v):
+        return len(json.dumps((v.get("details") or {}).get("case")))
+
+    def report(fp, v):
+        """Try to turn one recorded violation into a reproducing replay file.
+        -> 'reported' | 'known' | 'duplicate' | 'skipped' | error text"""
         left = shrink_deadline - time.time()
         case0 = (v.get("details") or {}).get("case") if minimize else None
         if case0 is not None:
             # minimise the workload case itself; the fingerprint of the minimal case is the finding
             if left <= 5 or len(new_violations) >= 12:
                 if new_violations:
-                    continue        # already reporting; the remaining raw groups are not minimised
+                    return "skipped"        # already reporting; the remaining raw groups are not minimised
                 left = 30.0
             case, r, nshrink = shrink_case(mod, v["seed"], v["choices"], fp, case0, budget_s=min(45.0, left))
-            if case is None:
-                harness_errors.append("violation %s (seed %d) did not replay in-process from its case: %s"
-                                      % (fp, v["seed"], v["message"]))
-                continue
-            ffp = tuple(r["fingerprint"])
-            if ffp in known_fps:
-                known_hit[ffp] = known_hit.get(ffp, 0) + 1
-                continue
-            if ffp in seen_final:
-                continue
-            seen_final.add(ffp)
-            path = write_replay(pid, v["seed"], v["choices"], ffp, r["message"], r["digest"],
-                                r.get("trace_tail"), r.get("details"), case=case)
-            ok, out = replay_in_fresh_interpreter(path)
-            if not ok:
-                harness_errors.append("replay %s did not reproduce in a fresh interpreter:\n%s"
-                                      % (path, out[-2000:]))
-                continue
-            new_violations.append((ffp, {"message": r["message"]}, path, nshrink))
-            continue
-        if left > 5 and len(new_violations) < 12:
+            if case is not None:
+                ffp = tuple(r["fingerprint"])
+                if ffp in known_fps:
+                    known_hit[ffp] = known_hit.get(ffp, 0) + 1
+                    return "known"
+                if ffp in seen_final:
+                    return "duplicate"
+                path = write_replay(pid, v["seed"], v["choices"], ffp, r["message"], r["digest"],
+                                    r.get("trace_tail"), r.get("details"), case=case)
+                ok, out = replay_in_fresh_interpreter(path)
+                if not ok:
+                    return "replay %s did not reproduce in a fresh interpreter:\n%s" % (path, out[-2000:])
+                seen_final.add(ffp)
+                new_violations.append((ffp, {"message": r["message"]}, path, nshrink))
+                return "reported"
+            # the case alone does not reproduce (state carried over from the preceding cases of the run):
+            # fall through and replay the whole run
+        if left > 5 and len(new_violations) < 12 and case0 is None:
             sparse, nshrink = shrink(mod, v["seed"], v["choices"], fp, budget_s=min(60.0, left))
         else:
             sparse, nshrink = v["choices"], 0      # overall minimisation budget used up: report unshrunk
@@ -454,18 +459,65 @@ def run_check(pid, tier, seed, jobs):
             # fall back to the unshrunk log
             sparse = v["choices"]
             r = run_one(mod, v["seed"], replay=replay_dict(sparse), lenient=True, keep_trace=True)
-        if not same_violation(r, fp):
-            harness_errors.append("violation %s (seed %d) did not replay in-process: %s"
-                                  % (fp, v["seed"], v["message"]))
-            continue
-        path = write_replay(pid, v["seed"], r["choices"], fp, r["message"], r["digest"],
-                            r.get("trace_tail"), r.get("details"))
+        if fp in seen_final:
+            return "duplicate"
+        if same_violation(r, fp):
+            path = write_replay(pid, v["seed"], r["choices"], fp, r["message"], r["digest"],
+                                r.get("trace_tail"), r.get("details"))
+            ok, out = replay_in_fresh_interpreter(path)
+            if ok:
+                seen_final.add(fp)
+                new_violations.append((fp, v, path, nshrink))
+                return "reported"
+            err = "replay %s did not reproduce in a fresh interpreter:\n%s" % (path, out[-2000:])
+        else:
+            err = "violation %s (seed %d) did not replay in-process: %s" % (fp, v["seed"], v["message"])
+        prelude = v.get("prelude") or []
+        if not prelude or time.time() > shrink_deadline + 120:
+            return err
+        # The run alone does not show it: replay it after the runs its worker process had executed before it
+        # (process-wide state in the code under test), then drop as much of that prelude as possible.
+        path = write_replay(pid, v["seed"], v["choices"], fp, v["message"], v["digest"], None, v.get("details"),
+                            prelude=prelude)
         ok, out = replay_in_fresh_interpreter(path)
         if not ok:
-            harness_errors.append("replay %s did not reproduce in a fresh interpreter:\n%s"
-                                  % (path, out[-2000:]))
+            return err + "\n(also not with the %d preceding runs of its worker)" % len(prelude)
+        keep = prelude
+        while len(keep) > 1 and time.time() < shrink_deadline + 120:
+            half = keep[len(keep) // 2:]
+            write_replay(pid, v["seed"], v["choices"], fp, v["message"], v["digest"], None, v.get("details"),
+                         prelude=half)
+            ok, out = replay_in_fresh_interpreter(path)
+            if not ok:
+                break
+            keep = half
+        write_replay(pid, v["seed"], v["choices"], fp, v["message"], v["digest"], None, v.get("details"),
+                     prelude=keep)
+        seen_final.add(fp)
+        new_violations.append((fp, v, path, 0))
+        return "reported"
+
+    order = sorted(groups.items(), key=lambda kv: (case_len(kv[1][0]), kv[0]) if minimize else kv[0])
+    unreproduced = []
+    for fp, cands in order:
+        if fp in known_fps:
+            known_hit[fp] = len(cands)
             continue
-        new_violations.append((fp, v, path, nshrink))
+        errs = []
+        for v in cands[:12]:
+            res = report(fp, v)
+            if res in ("reported", "known", "duplicate", "skipped"):
+                break
+            errs.append(res)
+        else:
+            unreproduced.append((fp, errs))
+    if unreproduced and not new_violations:
+        # nothing reproducible at all: the harness (or state leaking between runs) is at fault
+        for fp, errs in unreproduced[:5]:
+            harness_errors.extend(errs[:2])
+    elif unreproduced:
+        print("note: %d violation group(s) observed in the batch did not reproduce in isolation (state carried "
+              "between runs); reproducing ones are reported below" % len(unreproduced))
     wall_s = time.time() - t0
     write_evidence(mod, pid, tier, seed, agg, wall_s, known_hit, new_violations, harness_errors)
     for fp, k in known_fps.items():
